@@ -217,14 +217,16 @@ class Pipeline:
 
 	def _load_and_transpile(self, data: str | bytes) -> None:
 		from rogw.tranp.module.modules import Modules
+		# `__SELF__` in an input stands for the module's own path (self-imports / one-module import cycles)
 		if self.mode == 'in-memory':
 			src = data.decode('utf-8', errors='replace') if isinstance(data, bytes) else data
-			module = self.app.module(src)
+			module = self.app.module(src.replace('__SELF__', self.app.main))
 		else:
 			from rogw.tranp.module.types import ModulePath
 			self.n += 1
 			name = f'm{self.n}'
 			raw = data if isinstance(data, bytes) else data.encode('utf-8', errors='replace')
+			raw = raw.replace(b'__SELF__', f'fz.{name}'.encode())
 			with open(os.path.join(self.proj, 'fz', f'{name}.py'), 'wb') as f:
 				f.write(raw)
 			self.module_paths.append(ModulePath(f'fz.{name}', language='py'))
